@@ -1,0 +1,68 @@
+/*
+ * Verification hooks. Compiled only with -DSCPI_PARSER_VERIF; without the
+ * define every macro below expands to nothing and the library is unchanged.
+ *
+ * H1: the unused tail of the input buffer is poisoned with the
+ *     AddressSanitizer manual-poisoning API, so that a read of stale bytes
+ *     beyond the logical end of the input traps instead of silently succeeding.
+ * H2: SCPI_Parse reports message and message-unit boundaries to an external
+ *     observer provided by the verification harness.
+ */
+#ifndef SCPI_VERIF_HOOKS_H
+#define SCPI_VERIF_HOOKS_H
+
+#ifdef SCPI_PARSER_VERIF
+
+#include <stddef.h>
+#include "scpi/types.h"
+
+#ifdef __cplusplus
+extern "C" {
+#endif
+
+#define SCPI_VERIF_EV_MSG_BEGIN  1
+#define SCPI_VERIF_EV_UNIT       2
+#define SCPI_VERIF_EV_MSG_END    3
+
+    /* provided by the harness */
+    void scpi_verif_event(scpi_t * context, int kind, const char * ptr, int len, int value);
+
+#if defined(__SANITIZE_ADDRESS__)
+#define SCPI_VERIF_HAVE_ASAN 1
+#elif defined(__has_feature)
+#if __has_feature(address_sanitizer)
+#define SCPI_VERIF_HAVE_ASAN 1
+#endif
+#endif
+
+#ifdef SCPI_VERIF_HAVE_ASAN
+    void __asan_poison_memory_region(void const volatile * addr, size_t size);
+    void __asan_unpoison_memory_region(void const volatile * addr, size_t size);
+#define SCPI_VERIF_UNPOISON_INPUT(c) \
+    __asan_unpoison_memory_region((c)->buffer.data, (c)->buffer.length)
+#define SCPI_VERIF_POISON_INPUT_TAIL(c) do { \
+        if ((c)->buffer.position + 1 < (c)->buffer.length) { \
+            __asan_poison_memory_region((c)->buffer.data + (c)->buffer.position + 1, \
+                    (c)->buffer.length - (c)->buffer.position - 1); \
+        } \
+    } while (0)
+#else
+#define SCPI_VERIF_UNPOISON_INPUT(c)
+#define SCPI_VERIF_POISON_INPUT_TAIL(c)
+#endif
+
+#define SCPI_VERIF_EVENT(c, k, p, l, v) scpi_verif_event((c), (k), (p), (l), (v))
+
+#ifdef __cplusplus
+}
+#endif
+
+#else /* SCPI_PARSER_VERIF */
+
+#define SCPI_VERIF_UNPOISON_INPUT(c)
+#define SCPI_VERIF_POISON_INPUT_TAIL(c)
+#define SCPI_VERIF_EVENT(c, k, p, l, v)
+
+#endif /* SCPI_PARSER_VERIF */
+
+#endif /* SCPI_VERIF_HOOKS_H */
